@@ -23,7 +23,10 @@ CMPOPS = {ast.Lt: '<?', ast.LtE: '<=?', ast.Gt: '>?', ast.GtE: '>=?', ast.Eq: '=
 
 
 class Translator:
-    def __init__(self, bool_names=(), isinstance_oracle=None, calls=None, consts=None, renames=None):
+    def __init__(self, bool_names=(), isinstance_oracle=None, calls=None, consts=None, renames=None, lens=None,
+                 membership=None):
+        self.lens = lens or {}              # "len(<expr text>)" -> coq Z term
+        self.membership = membership or {}  # "<unparsed 'x' in y>" -> coq bool term
         self.bool_names = set(bool_names)
         self.isinstance_oracle = isinstance_oracle or (lambda var, cls: None)
         self.calls = calls or {}        # python function name -> coq function name
@@ -34,6 +37,8 @@ class Translator:
     def z(self, e):
         if isinstance(e, ast.Constant) and isinstance(e.value, int) and not isinstance(e.value, bool):
             return str(e.value) if e.value >= 0 else f'({e.value})'
+        if isinstance(e, ast.Attribute) and ast.unparse(e) in self.renames:
+            return self.renames[ast.unparse(e)]
         if isinstance(e, ast.Name):
             if e.id in self.bool_names:
                 raise Untranslatable(f'bool name {e.id} used as int')
@@ -57,6 +62,13 @@ class Translator:
             args = e.args
             if e.keywords:
                 raise Untranslatable('keyword arguments')
+            if f == 'len' and len(args) == 1 and ast.unparse(args[0]) in self.lens:
+                return self.lens[ast.unparse(args[0])]
+            if f == 'int' and len(args) == 1:
+                try:
+                    return self.z(args[0])
+                except Untranslatable:
+                    return f'(if {self.b(args[0])} then 1 else 0)'
             if f == 'abs' and len(args) == 1:
                 return f'(Z.abs {self.z(args[0])})'
             if f == 'int' and len(args) == 1:
@@ -105,6 +117,10 @@ class Translator:
                 return f'(negb {self.b(e.operand)})'
             except Untranslatable:
                 return f'({self.z(e.operand)} =? 0)'          # "not n" on an int
+        if isinstance(e, ast.Compare) and ast.unparse(e) in self.membership:
+            return self.membership[ast.unparse(e)]
+        if isinstance(e, ast.Attribute) or isinstance(e, ast.Name) and e.id in self.renames and e.id in self.bool_names:
+            pass
         if isinstance(e, ast.Compare):
             parts = []
             left = e.left
